@@ -19,7 +19,7 @@ RULE = ("per case one store (memory / sqlite file / peewee file), one bucket cre
         "data dict) is mutated and everything is read again; then replace / replace_last / bulk upsert with the same "
         "mutate-afterwards probe; then one event that is not the newest is deleted and three more are inserted (single + "
         "bulk) and ids / lookups re-checked; in half of the cases six equal-looking events (same instant and duration, data equal or "
-        "differing only as 1 / 1.0 / true) are stored, one of the later ones is deleted by id and every other event is re-read; 'sweep' cases push thousands of instants through one bulk insert; non-trivial = "
+        "differing only as 1 / 1.0 / true) are stored, one of the later ones is deleted by id and every other event is re-read; 'sweep' cases push thousands of instants through one bulk insert - half of them on a connection given the per-statement limits of a stock SQLite build (999 bound variables, 500 compound terms); non-trivial = "
         "sub-millisecond duration part or non-UTC offset or nested/unicode data; signature = (backend, bulk?, decade, "
         "binary exponent of the start µs, duration class, data-shape class)")
 ASSUMPTIONS = ["the contract compared against is the millisecond floor of the given instant (Event's own normalisation)",
@@ -112,6 +112,8 @@ def run_case(case, ctx):
     with Store(backend, ctx.tmp) as st:
         ds = st.ds
         if case["kind"] == "sweep":
+            if len(case["events"]) % 2 and st.tighten_limits():
+                ctx.count("sweeps_under_the_statement_limits_of_a_stock_sqlite")
             b = ds.create_bucket("sweep", type="t", client="c", hostname="h")
             evs = [mk_event(s) for s in case["events"]]
             b.insert(evs)
